@@ -10,16 +10,17 @@ namespace PLS
 def OutwardCorrect (ix : List Def) (prov : Path → Def → Prop) (D : Def) (r : Option Def) : Prop :=
   Correct (ix.filter (· != D)) prov D.file D.name r
 
-/-- **C02 (parameter side).**  A usage on the line of a same-named definition `D` resolves over
-    the index without `D`, and never to `D` itself — for every index, order and placement. -/
+/-- **C02 (parameter side).**  A usage of `D`'s own name inside `D`'s lines (anywhere in its
+    signature, wrapped or not) resolves over the index without `D`, and never to `D` itself — for
+    every index, order and placement. -/
 theorem C02_param (ix : List Def) (imp : Path → String → Bool) (D : Def) (u : Usage)
-    (hline : defAtLine ix u.file u.line = some D) (hname : D.name = u.name) :
+    (hline : ownDefAt ix u.file u.line u.name = some D) :
     resolveUsage ix imp u = resolve (ix.filter (· != D)) imp u.file u.name ∧
       resolveUsage ix imp u ≠ some D := by
   have h1 : resolveUsage ix imp u = resolve (ix.filter (· != D)) imp u.file u.name := by
     unfold resolveUsage
     rw [hline]
-    simp only [hname, beq_self_eq_true, if_true, resolveExcl]
+    simp only [resolveExcl]
     exact resolveF_filter ix imp u.file u.name _
   refine ⟨h1, ?_⟩
   intro h
@@ -31,24 +32,24 @@ theorem C02_param (ix : List Def) (imp : Path → String → Bool) (D : Def) (u 
     without `D`, the parameter resolves to what pytest's order selects once `D` is set aside. -/
 theorem C02_outward_correct (ix : List Def) (prov : Path → Def → Prop) (imp : Path → String → Bool)
     (D : Def) (u : Usage)
-    (hline : defAtLine ix u.file u.line = some D) (hname : D.name = u.name) (hfile : D.file = u.file)
+    (hline : ownDefAt ix u.file u.line u.name = some D) (hname : D.name = u.name) (hfile : D.file = u.file)
     (hown : ∀ c d, d.file = c → prov c d)
     (hex : OracleExact (ix.filter (· != D)) prov imp D.name)
     (himp : Himp (ix.filter (· != D)) prov imp D.name) :
     OutwardCorrect ix prov D (resolveUsage ix imp u) := by
   unfold OutwardCorrect
-  rw [(C02_param ix imp D u hline hname).1, ← hname, ← hfile]
+  rw [(C02_param ix imp D u hline).1, ← hname, ← hfile]
   exact C01_resolve_correct _ prov imp D.file D.name hown hex himp
 
 /-- **C02 (chains).** Along any override chain `D₀, D₁, …` in which each link's parameter usage
-    `uᵢ` sits on `Dᵢ`'s line, every `uᵢ` resolves over the index without `Dᵢ` and never to `Dᵢ`
+    `uᵢ` sits inside `Dᵢ`'s lines, every `uᵢ` resolves over the index without `Dᵢ` and never to `Dᵢ`
     — chains of any length and placement. -/
 theorem C02_chain (ix : List Def) (imp : Path → String → Bool) (chain : List (Def × Usage))
-    (h : ∀ p ∈ chain, defAtLine ix p.2.file p.2.line = some p.1 ∧ p.1.name = p.2.name) :
+    (h : ∀ p ∈ chain, ownDefAt ix p.2.file p.2.line p.2.name = some p.1) :
     ∀ p ∈ chain, resolveUsage ix imp p.2 = resolve (ix.filter (· != p.1)) imp p.2.file p.2.name ∧
       resolveUsage ix imp p.2 ≠ some p.1 := by
   intro p hp
-  exact C02_param ix imp p.1 p.2 (h p hp).1 (h p hp).2
+  exact C02_param ix imp p.1 p.2 (h p hp)
 
 /-- **C02 (name side).** With the cursor on the function name of `D` (no usage span under it),
     the fixture at the position is `D`'s own name: references and navigation from the name concern
@@ -77,11 +78,36 @@ theorem C02_param_position (ix : List Def) (us : List Usage) (f : Path) (line0 c
     fixtureAtWith ix us f line0 col w = some u.name := by
   simp [fixtureAtWith, h]
 
-/-- the multi-line case is NOT covered: when the parameter sits on a later line than `def`,
-    `defAtLine` finds nothing there and the parameter resolves like an ordinary usage — possibly
-    to the overriding fixture itself (E8). -/
-theorem C02_multiline_not_excluded (ix : List Def) (imp : Path → String → Bool) (u : Usage)
-    (h : defAtLine ix u.file u.line = none) :
+/-- **C02 (wrapped signatures are covered).** A parameter named like its fixture `D` on ANY line
+    from `D`'s `def` line to its last line — `def foo(\n    foo,\n):` — is found as `D`'s own
+    request, whatever else the file defines: it resolves outward and never to a definition that
+    spans that line under that name.  (Before the E8 repair only a parameter on the `def` line
+    itself was recognised; `corpus/C02/e8_multiline.case`.) -/
+theorem C02_multiline_excluded (ix : List Def) (imp : Path → String → Bool) (D : Def) (u : Usage)
+    (hD : D ∈ ix) (hname : D.name = u.name) (hfile : D.file = u.file)
+    (hlo : D.line ≤ u.line) (hhi : u.line ≤ D.endLine) :
+    ∃ D', ownDefAt ix u.file u.line u.name = some D' ∧
+      D'.name = u.name ∧ D'.file = u.file ∧ D'.line ≤ u.line ∧ u.line ≤ D'.endLine ∧
+      resolveUsage ix imp u ≠ some D' := by
+  have hmem : D ∈ defsOf ix u.name := mem_defsOf.mpr ⟨hD, hname⟩
+  have hp : (fun d : Def => d.file == u.file && decide (d.line ≤ u.line) && decide (u.line ≤ d.endLine)) D = true := by
+    simp [hfile, hlo, hhi]
+  cases hf : ownDefAt ix u.file u.line u.name with
+  | none =>
+    unfold ownDefAt at hf
+    have := List.find?_eq_none.mp hf D hmem
+    simp [hfile, hlo, hhi] at this
+  | some D' =>
+    have hsome := hf
+    unfold ownDefAt at hf
+    have hm := mem_defsOf.mp (List.mem_of_find?_eq_some hf)
+    have hprop := List.find?_some hf
+    simp only [Bool.and_eq_true, beq_iff_eq, decide_eq_true_eq] at hprop
+    exact ⟨D', rfl, hm.2, hprop.1.1, hprop.1.2, hprop.2, (C02_param ix imp D' u hsome).2⟩
+
+/-- outside every same-named fixture's lines a usage resolves like any other -/
+theorem C02_plain_usage (ix : List Def) (imp : Path → String → Bool) (u : Usage)
+    (h : ownDefAt ix u.file u.line u.name = none) :
     resolveUsage ix imp u = resolve ix imp u.file u.name := by
   simp [resolveUsage, h]
 
